@@ -1830,3 +1830,225 @@ func zzC04hReadDuringAckWrite() {
 	conn.Close(ctx)
 	vf.Reach("end")
 }
+
+// C16.g: polling receivers. ReceiveCall / ReceiveReplyCall invoked with a context that is already done
+// while calls are queued (both select arms ready - each choice explored) either return a call or an
+// error, but never lose one: over all invocations every queued call is handed out exactly once, in
+// arrival order.
+func zzC16gPollingReceiver() {
+	b := zzNewBroker()
+	conn := zzConnect(b)
+	tr := b.last()
+	ctx := context.Background()
+	replies := vf.Choose("reply.calls", 2) == 1
+	for i := 0; i < 3; i++ {
+		c := &message.DownstreamCall{CallID: "c" + string(rune('1'+i)), SourceNodeID: "n", Name: "a", Type: "b"}
+		if replies {
+			c.RequestCallID = "nobody"
+		}
+		tr.push(c)
+	}
+	vf.Settle()
+	gone, cancel := context.WithCancel(ctx)
+	cancel()
+	var got []string
+	recv := func(c context.Context) error {
+		if replies {
+			r, err := conn.ReceiveReplyCall(c)
+			if err == nil && r != nil {
+				got = append(got, r.CallID)
+			}
+			return err
+		}
+		r, err := conn.ReceiveCall(c)
+		if err == nil && r != nil {
+			got = append(got, r.CallID)
+		}
+		return err
+	}
+	polls := 1 + vf.Choose("polls.with.done.context", 2)
+	for i := 0; i < polls; i++ {
+		recv(gone)
+	}
+	for len(got) < 3 {
+		var err error
+		blocked := vf.Blocked(func() { err = recv(ctx) })
+		vf.Assert("queued-call-is-still-there", !blocked && err == nil)
+		if blocked || err != nil {
+			return
+		}
+	}
+	vf.Assert("each-call-once-in-arrival-order", len(got) == 3 && got[0] == "c1" && got[1] == "c2" && got[2] == "c3")
+	conn.Close(ctx)
+	vf.Reach("end")
+}
+
+// C15.d: keepalive end to end through ConnectWithConfig on the virtual clock: the configured
+// interval / timeout (sub-second values included; the defaults only when unset) are the ones the
+// client runs on and announces (at whole seconds); a broker answering every ping is never given
+// up; once it falls silent the connection is declared lost within interval + timeout.
+func zzC15dKeepaliveEndToEnd() {
+	b := zzNewBroker()
+	zzServeStreams(b)
+	ev := &zzEvents{}
+	conf := b.config()
+	conf.DisconnectedEventHandler = ev
+	conf.ReconnectedEventHandler = ev
+	iv := [...]time.Duration{0, 200 * time.Millisecond, 1500 * time.Millisecond, 3 * time.Second}[vf.Choose("interval", 4)]
+	to := [...]time.Duration{0, 100 * time.Millisecond, 2 * time.Second}[vf.Choose("timeout", 3)]
+	conf.PingInterval, conf.PingTimeout = iv, to
+	conn, err := ConnectWithConfig(conf)
+	vf.Assume(err == nil)
+	vf.Settle()
+	effIv, effTo := iv, to
+	if iv == 0 {
+		effIv = 10 * time.Second
+	}
+	if to == 0 {
+		effTo = time.Second
+	}
+	var cr *message.ConnectRequest
+	for _, m := range b.last().msgs() {
+		if r, ok := m.(*message.ConnectRequest); ok {
+			cr = r
+		}
+	}
+	vf.Assert("announced-values-are-the-configured-ones-in-whole-seconds", cr != nil && cr.PingInterval == effIv/time.Second*time.Second && cr.PingTimeout == effTo/time.Second*time.Second)
+	// a live broker is never given up
+	for i := 0; i < 3; i++ {
+		vf.Advance(effIv)
+	}
+	vf.Assert("live-broker-never-dropped", ev.disconnected == 0 && b.dials == 1)
+	pingsBefore := 0
+	for _, m := range b.last().msgs() {
+		if _, ok := m.(*message.Ping); ok {
+			pingsBefore++
+		}
+	}
+	vf.Assert("pings-at-the-configured-interval", pingsBefore >= 3 && pingsBefore <= 5)
+	// the broker falls silent
+	b.autoPong = false
+	vf.Advance(effIv + effTo + 50*time.Millisecond)
+	vf.Assert("dead-broker-detected-within-interval-plus-timeout", ev.disconnected >= 1 || b.dials >= 2)
+	b.autoPong = true
+	vf.Advance(time.Second)
+	conn.Close(context.Background())
+	vf.Reach("end")
+}
+
+// C10.g3: goroutine census when traffic keeps arriving during Close: while Conn.Close waits for the
+// broker to take its Disconnect, the broker pushes a burst of calls, acks, chunks and metadata (more
+// than any dispatch queue holds) that nobody reads any more; once the peer has closed too, no
+// goroutine of the library is left.
+func zzC10g3BurstDuringClose() {
+	b := zzNewBroker()
+	zzServeStreams(b)
+	serve := b.handler
+	taking := make(chan struct{}, 1)
+	release := make(chan struct{})
+	b.handler = func(t *zzTr, m message.Message) bool {
+		if _, ok := m.(*message.Disconnect); ok {
+			taking <- struct{}{}
+			<-release
+			return true
+		}
+		return serve(t, m)
+	}
+	conn := zzConnect(b)
+	tr := b.last()
+	ctx := context.Background()
+	down, err := conn.OpenDownstream(ctx, []*message.DownstreamFilter{{SourceNodeID: "node"}})
+	vf.Assume(err == nil && down != nil)
+	vf.Settle()
+	var alias uint32
+	for _, m := range tr.msgs() {
+		if r, ok := m.(*message.DownstreamOpenRequest); ok {
+			alias = r.DesiredStreamIDAlias
+		}
+	}
+	closed := false
+	go func() { conn.Close(ctx); closed = true }()
+	vf.Settle()
+	stalled := false
+	select {
+	case <-taking:
+		stalled = true
+	default:
+	}
+	vf.Assert("close-waits-for-the-disconnect-to-be-taken", stalled && !closed)
+	kind := vf.Choose("burst", 4)
+	for i := 0; i < 12; i++ {
+		switch kind {
+		case 0:
+			tr.push(&message.DownstreamCall{CallID: "c" + string(rune('a'+i)), SourceNodeID: "n", Name: "a", Type: "b"})
+		case 1:
+			tr.push(&message.UpstreamCallAck{CallID: "x" + string(rune('a'+i)), ResultCode: message.ResultCodeSucceeded})
+		case 2:
+			tr.push(&message.DownstreamChunk{StreamIDAlias: alias, UpstreamOrAlias: &message.UpstreamInfo{SessionID: "s", SourceNodeID: "node", StreamID: zzStreamID1}, StreamChunk: &message.StreamChunk{SequenceNumber: uint32(i + 1)}})
+		case 3:
+			tr.push(&message.DownstreamMetadata{RequestID: message.RequestID(2*i + 1), StreamIDAlias: alias, SourceNodeID: "node", Metadata: &message.BaseTime{Name: "n"}})
+		}
+	}
+	vf.Settle()
+	close(release)
+	vf.Settle()
+	vf.Assert("close-returns", closed)
+	tr.Close()
+	vf.Settle()
+	vf.Advance(30 * time.Second)
+	vf.Assert("no-goroutine-left", vf.Leaked() == "")
+	vf.Reach("end")
+}
+
+// zzSlowStore is a sent storage whose List takes a while (a disk-backed store under load).
+type zzSlowStore struct {
+	sentStorage
+	delay time.Duration
+	slow  bool
+}
+
+func (s *zzSlowStore) List(ctx context.Context, id uuid.UUID) (map[uint32]DataPointGroups, error) {
+	if s.slow {
+		time.Sleep(s.delay)
+	}
+	return s.sentStorage.List(ctx, id)
+}
+
+// C08.e2: the bound of Upstream.Close (close timeout / caller's deadline) expires while the drain
+// loop is between its "is it over?" check and its wait - inside a slow storage List. The wake-up for
+// the expiry must not be lost: Close still returns.
+func zzC08e2CloseBoundExpiresDuringList() {
+	b := zzNewBroker()
+	zzServeStreams(b) // never acknowledges chunks
+	store := &zzSlowStore{sentStorage: newInmemSentStorage(), delay: 500 * time.Millisecond}
+	conf := b.config()
+	conf.sentStorage = store
+	n := 0
+	randomString = func() string { n++; return "call-" + string(rune('a'+n)) }
+	conn, err := ConnectWithConfig(conf)
+	vf.Assume(err == nil)
+	vf.Settle()
+	ctx := context.Background()
+	up, err := conn.OpenUpstream(ctx, "session", WithUpstreamFlushPolicyNone(), WithUpstreamQoS(message.QoSReliable), WithUpstreamCloseTimeout(200*time.Millisecond))
+	vf.Assume(err == nil)
+	vf.Settle()
+	vf.Assume(up.WriteDataPoints(ctx, &message.DataID{Name: "n", Type: "t"}, &message.DataPoint{ElapsedTime: 1}) == nil && up.Flush(ctx) == nil)
+	vf.Settle()
+	store.slow = true
+	cctx, cancel := ctx, context.CancelFunc(func() {})
+	if vf.Choose("caller.deadline.instead", 2) == 1 {
+		// the caller's own deadline (100 ms) is the one that expires inside List
+		cctx, cancel = context.WithTimeout(ctx, 100*time.Millisecond)
+	}
+	defer cancel()
+	done := false
+	go func() { up.Close(cctx); done = true }()
+	vf.Settle()
+	for i := 0; i < 8 && !done; i++ {
+		vf.Advance(250 * time.Millisecond)
+	}
+	vf.Assert("close-returns-although-its-bound-expired-inside-list", done)
+	store.slow = false
+	conn.Close(ctx)
+	vf.Reach("end")
+}
